@@ -5,6 +5,7 @@ import (
 	"encoding/json"
 	"fmt"
 	"io"
+	"os"
 	"sort"
 	"strings"
 	"time"
@@ -61,6 +62,14 @@ func (r *registry) LookPath(name string) (string, error) {
 	return "/sim/bin/" + name, nil
 }
 
+// Ignores: a "hang-deaf" plugin has blocked every signal it can block; only
+// SIGKILL ends it (simexec never asks about SIGKILL).
+func (r *registry) Ignores(path string, args []string, sig os.Signal) bool {
+	name := path[strings.LastIndex(path, "/")+1:]
+	p := r.calls[name+" "+strings.Join(args, " ")]
+	return p != nil && p.Fate == "hang-deaf"
+}
+
 type exitErr struct{ msg string }
 
 func (e *exitErr) Error() string { return e.msg }
@@ -83,7 +92,7 @@ func (r *registry) Run(ctx context.Context, path string, args []string, stdin io
 	}
 	lat := p.Latency
 	switch p.Fate {
-	case "hang":
+	case "hang", "hang-deaf":
 		<-ctx.Done()
 		return nil, []byte("killed"), ctx.Err()
 	}
@@ -122,7 +131,7 @@ func (r *registry) Run(ctx context.Context, path string, args []string, stdin io
 func runPartB(c *worker.Ctx) {
 	res := c.Res
 	np := 2 + c.T.Draw(3)
-	fates := []string{"ok", "ok", "ok", "ok", "slow", "notfound", "exit1", "garbage", "truncated", "empty", "hang"}
+	fates := []string{"ok", "ok", "ok", "ok", "slow", "notfound", "exit1", "garbage", "truncated", "empty", "hang", "hang-deaf"}
 	faulty := c.T.Bool(1, 2)
 	var plans []*pluginPlan
 	var src strings.Builder
@@ -233,7 +242,7 @@ func runPartB(c *worker.Ctx) {
 				}
 			case "notfound":
 				want[string(linter.ERROR)+"|notfound:"+p.Name]++
-			default: // exit1, garbage, truncated, hang: exactly one "runs failed" diagnostic
+			default: // exit1, garbage, truncated, hang, hang-deaf: exactly one "runs failed" diagnostic
 				want[string(linter.ERROR)+"|failed"]++
 			case "empty":
 				want[string(linter.ERROR)+"|failed"]++
@@ -294,7 +303,7 @@ func runPartB(c *worker.Ctx) {
 				res.Violate("C18/plugin-request", "C18/plugin-request:decode", fmt.Sprintf("plugin %s decoded %q instead of the annotated statement", p.Name, reg.seen[p.call()]))
 			}
 		}
-		if reg.fired["hang"] > 0 {
+		if reg.fired["hang"]+reg.fired["hang-deaf"] > 0 {
 			res.Probe("plugin_timeout_fired")
 		}
 	}
